@@ -113,7 +113,16 @@ func ImportModuleLevelObject(ctx Context, name string, globals, locals StringDic
 		}
 	}
 
-	module, err := RunFile(ctx, srcPathname, opts, name)
+	out, err := ctx.ResolveAndCompile(srcPathname, opts)
+	if err != nil {
+		// A module which can't be found is an ImportError
+		if IsException(FileNotFoundError, err) {
+			err = ExceptionNewf(ImportError, "No module named '%s'", name)
+		}
+		return nil, err
+	}
+
+	module, err := RunCode(ctx, out.Code, out.FileDesc, name)
 	if err != nil {
 		return nil, err
 	}
